@@ -73,6 +73,16 @@ type verifProfile struct {
 	compressed bool // allow WriteCompressed
 	symbolic   bool // symbolic payload bytes
 	password   string
+	safeBodies bool // no stream body with a line-initial object header (C20)
+	noBig      bool // no bodies around the 1024-byte threshold
+	simple     bool // few stream shapes (properties that are not about streams)
+	configs    []verifConfig // if set: case split over these instead of version x human x seekable
+}
+
+type verifConfig struct {
+	v        Version
+	human    bool
+	seekable bool
 }
 
 func verifPayload(symbolic bool) Object {
@@ -86,12 +96,21 @@ func verifPayload(symbolic bool) Object {
 	case 0:
 		return s
 	case 1:
+		if !symbolic {
+			return Dict{"K": s, "N": Integer(-7)}
+		}
 		return Dict{"K": s, "N": Integer(verifrt.IntRange("payint", -9, 99))}
 	case 2:
 		return Array{s, Name("N"), nil, Boolean(true)}
 	case 3:
+		if !symbolic {
+			return Integer(42)
+		}
 		return Integer(verifrt.IntRange("payint", -9, 99))
 	default:
+		if !symbolic {
+			return Name("A#B")
+		}
 		return Name(verifrt.String("payname", 1))
 	}
 }
@@ -107,9 +126,19 @@ var verifBodies = [][]byte{
 	[]byte("q\r\n"),
 }
 
-func verifBody(symbolic bool, wholeRows int) []byte {
+func verifBody(symbolic bool, wholeRows int, p verifProfile) []byte {
 	var body []byte
-	k := verifrt.Choice("bodykind", len(verifBodies)+2)
+	kinds := len(verifBodies) + 2
+	if p.noBig {
+		kinds--
+	}
+	if p.simple {
+		kinds = 3 // empty, "x", body containing EOL+endstream
+	}
+	k := verifrt.Choice("bodykind", kinds)
+	if p.safeBodies {
+		verifrt.Assume(k != 3)
+	}
 	switch {
 	case k < len(verifBodies):
 		body = append([]byte{}, verifBodies[k]...)
@@ -139,8 +168,12 @@ func verifBody(symbolic bool, wholeRows int) []byte {
 
 // verifFilters returns a filter chain and whether symbolic bytes may flow
 // through it without path explosion, plus the row size it needs.
-func verifFilters() (fs []Filter, symbolicOK bool, rows int) {
-	switch verifrt.Choice("filters", 8) {
+func verifFilters(p verifProfile) (fs []Filter, symbolicOK bool, rows int) {
+	n := 8
+	if p.simple {
+		n = 2
+	}
+	switch verifrt.Choice("filters", n) {
 	case 0:
 		return nil, true, 1
 	case 1:
@@ -164,15 +197,20 @@ func verifFilters() (fs []Filter, symbolicOK bool, rows int) {
 func verifProduce(p verifProfile) *verifDoc {
 	verifrt.Unwind(4000)
 	doc := &verifDoc{}
-	if p.versions >= len(verifVersions) && verifrt.Tier() == 0 {
+	if len(p.configs) > 0 {
+		c := p.configs[verifrt.Choice("config", len(p.configs))]
+		doc.version, doc.human, doc.seekable = c.v, c.human, c.seekable
+	} else if p.versions >= len(verifVersions) && verifrt.Tier() == 0 {
 		// quick tier: one version per behaviour class (no ID; LZW only;
 		// xref table + RC4; xref/object streams; PDF 2.0)
 		doc.version = []Version{V2_0, V1_5, V1_4, V1_2, V1_0}[verifrt.Choice("version", 5)]
 	} else {
 		doc.version = verifVersions[len(verifVersions)-1-verifrt.Choice("version", p.versions)]
 	}
-	doc.human = verifrt.Choice("human", 2) == 1
-	doc.seekable = verifrt.Choice("seekable", 2) == 1
+	if len(p.configs) == 0 {
+		doc.human = verifrt.Choice("human", 2) == 1
+		doc.seekable = verifrt.Choice("seekable", 2) == 1
+	}
 	doc.id = [][]byte{[]byte("0123456789abcdef"), []byte("fedcba9876543210")}
 	opt := &WriterOptions{HumanReadable: doc.human}
 	if doc.version >= V1_1 {
@@ -240,7 +278,7 @@ func verifProduce(p verifProfile) *verifDoc {
 			doc.compressed = append(doc.compressed, r1, r2)
 		case 3: // stream, optionally with a Put while it is open
 			ref := w.Alloc()
-			fs, symOK, rows := verifFilters()
+			fs, symOK, rows := verifFilters(p)
 			if doc.version < V1_2 {
 				// Flate needs PDF 1.2
 				for _, f := range fs {
@@ -249,7 +287,7 @@ func verifProduce(p verifProfile) *verifDoc {
 					}
 				}
 			}
-			body := verifBody(p.symbolic && symOK, rows)
+			body := verifBody(p.symbolic && symOK, rows, p)
 			ws, err := w.OpenStream(ref, Dict{"Kind": Name("S")}, fs...)
 			verifrt.Assert(err == nil, "OpenStream succeeds")
 			if err != nil {
